@@ -439,14 +439,15 @@ func VerifC24Deep() {
 // numbers (objects are distinct constants: the function is generic and cannot look at them).
 func VerifC24Merge() {
 	verifPanicsAreViolations()
-	n := verifChoice("n", 5)
+	// quick: up to 3 queued writes; thorough: up to 4
+	n := verifChoice("n", 4+verifTier())
 	qs := make([]*queuedObjects[int], n)
 	var wantObjs []int
 	var wantChans []FlushChannel
 	for i := 0; i < n; i++ {
 		q := &queuedObjects[int]{SequenceNumber: verifI64(verifName("seq", i))}
 		k := 1
-		if i < 2 || verifTier() == 1 {
+		if i < 2+verifTier() { // number of objects 0..2 (later writes: 1)
 			k = verifChoice(verifName("len", i), 3)
 		}
 		for j := 0; j < k; j++ {
@@ -466,14 +467,13 @@ func VerifC24Merge() {
 		return
 	}
 	verifAssert("C24-merge-not-nil", r != nil)
-	attained := false
-	for i := 0; i < n; i++ {
-		verifAssert("C24-merge-seq-is-upper-bound", r.SequenceNumber >= qs[i].SequenceNumber)
-		if r.SequenceNumber == qs[i].SequenceNumber {
-			attained = true
+	max := qs[0].SequenceNumber
+	for i := 1; i < n; i++ {
+		if qs[i].SequenceNumber > max {
+			max = qs[i].SequenceNumber
 		}
 	}
-	verifAssert("C24-merge-seq-is-a-member", attained)
+	verifAssert("C24-merge-seq-is-the-largest", r.SequenceNumber == max)
 	verifAssert("C24-merge-object-count", len(r.Objects) == len(wantObjs))
 	for i := range wantObjs {
 		verifAssert("C24-merge-objects-concatenated", r.Objects[i] == wantObjs[i])
